@@ -406,7 +406,7 @@ def _inside_section(txt, pos):
 
 
 def load_findings(pid):
-    p = os.path.join(VERIF, 'known_findings.json')
+    p = os.path.join(VERIF, 'known_findings', '%s.json' % pid)
     if not os.path.exists(p):
         return []
     doc = json.load(open(p))
